@@ -169,7 +169,7 @@ def run_gauss(c, rec):
             kw["geometry"] = n
         refused, d = refuses(lambda: cuqi.distribution.Gaussian(mean, **kw))
         if refused:
-            rec.count("construction_refused")
+            raise Violation(f"constructing Gaussian({c['param']}=<{c['structure']}>) failed: {type(d).__name__}: {d}")
             return
         tol = 1e-8 if c["sparse_switch"] == "below" else 1e-6
         # the un-normalised log-density may be unavailable (sparse without cholmod): use differences of _logupdf-free logd
@@ -273,7 +273,7 @@ def run_pit(c, rec):
         return
     refused, built = refuses(lambda: dists.build(c))
     if refused:
-        rec.count("construction_refused")
+        raise Violation(f"constructing {fam} from documented parameters failed: {type(built).__name__}: {built}")
         return
     d, ref = built
     check_shapes_and_stream(d, n, rec, fam)
@@ -380,7 +380,7 @@ def run_resample(c, rec):
         refused, d1 = refuses(lambda: c04._build_any(kind, s1))
         refused2, d2 = refuses(lambda: c04._build_any(kind, s2))
         if refused or refused2:
-            rec.count("construction_refused")
+            raise Violation(f"constructing {kind} from documented parameters failed: {d1 if refused else d2}")
             return
         refused, _ = refuses(lambda: (d1.sample(1, rng=np.random.RandomState(3)), d1.sample(2, rng=np.random.RandomState(4))))
         if refused:
